@@ -226,6 +226,7 @@ type c20Arg struct {
 	Page  int64  `json:"page"`
 	Per   int64  `json:"per"`
 	LC    string `json:"lc"`
+	Ord   string `json:"ord"` // order_by of a TxSearch
 }
 
 type c20Edit struct {
